@@ -417,16 +417,17 @@ type c15Client struct {
 	// reader goroutine only
 	st int // 0 login, 1 config, 2 play
 	// guarded by rig.mu
-	loginSuccess bool
-	joins        int
-	respawns     int
-	startUpdates int
-	cfgFinished  int
-	kicked       bool
-	kickPayload  []byte
-	play         []c15Rx
-	cfgRx        []c15Rx
-	loginRx      []c15Rx
+	loginSuccess     bool
+	loginSuccessData []byte // body of the LoginSuccess packet (after the packet id)
+	joins            int
+	respawns         int
+	startUpdates     int
+	cfgFinished      int
+	kicked           bool
+	kickPayload      []byte
+	play             []c15Rx
+	cfgRx            []c15Rx
+	loginRx          []c15Rx
 }
 
 func (c *c15Client) handle(p []byte) {
@@ -444,6 +445,7 @@ func (c *c15Client) handle(p []byte) {
 		case c.ids.cbLoginSuccess:
 			r.mu.Lock()
 			c.loginSuccess = true
+			c.loginSuccessData = append([]byte(nil), data...)
 			if r.cfgPhase {
 				c.enqueueLocked(c15Out{payload: c15Enc(&packet.LoginAcknowledged{}, proto.ServerBound, state.Login, r.proto)})
 				c.st = 1
@@ -921,6 +923,9 @@ type c15RigOpts struct {
 	// loop's goroutine between two packets, which is where the EncryptionResponse
 	// handler does it in production.
 	ClientSecret []byte
+	// ProfileRewrite: a GameProfileRequestEvent subscriber replaces the profile's id
+	// (what the Geyser integration does for Bedrock players)
+	ProfileRewrite *[16]byte
 }
 
 // c15CipherConn is the fake client's end of an encrypted connection: the first
@@ -1137,6 +1142,13 @@ func c15NewRig(o c15RigOpts) (*c15Rig, error) {
 	event.Subscribe(r.ev, 0, func(e *PostLoginEvent) {
 		r.logEvent(c15Event{Kind: "postlogin"})
 	})
+	if o.ProfileRewrite != nil {
+		event.Subscribe(r.ev, 0, func(e *GameProfileRequestEvent) {
+			gp := e.GameProfile()
+			gp.ID = uuid.UUID(*o.ProfileRewrite)
+			e.SetGameProfile(gp)
+		})
+	}
 	if len(o.ClientSecret) == 16 {
 		event.Subscribe(r.ev, 0, func(e *PreLoginEvent) {
 			li, ok := e.Conn().(*loginInboundConn)
